@@ -6,6 +6,8 @@ import (
 	"context"
 	"encoding/json"
 	"fmt"
+	"os"
+	"path/filepath"
 	"strings"
 	"testing"
 	"time"
@@ -54,10 +56,52 @@ type C11Case struct {
 	Admin  []string   `json:"admin,omitempty"`
 	Prefix bool       `json:"prefix,omitempty"`
 	Shared bool       `json:"shared,omitempty"`
-	Reqs   []C11Req   `json:"reqs"`
+	// Via: how the token values reach the config ("" raw: | env | file); Blank: the tokens of that scope
+	// ("global" | "routes" | "admin" | "all") are whitespace-only values (BlankVal) delivered that way
+	Via      string   `json:"via,omitempty"`
+	Blank    string   `json:"blank,omitempty"`
+	BlankVal string   `json:"blank_val,omitempty"`
+	Reqs     []C11Req `json:"reqs"`
 }
 
+var c11RefSeq int
+
+// c11Ref renders one token reference and provides the value behind it.
+func (c C11Case) c11Ref(scope, tok string, cleanup *[]func()) string {
+	val := tok
+	via := c.Via
+	if c.Blank == scope || c.Blank == "all" {
+		val = c.BlankVal
+		if via == "" {
+			via = "env"
+		}
+	}
+	switch via {
+	case "env":
+		c11RefSeq++
+		name := fmt.Sprintf("VERIF_C11_%d_%d", os.Getpid(), c11RefSeq)
+		_ = os.Setenv(name, val)
+		*cleanup = append(*cleanup, func() { _ = os.Unsetenv(name) })
+		return "env:" + name
+	case "file":
+		c11RefSeq++
+		path := filepath.Join(fScratch(), fmt.Sprintf("c11tok-%d-%d", os.Getpid(), c11RefSeq))
+		_ = os.MkdirAll(filepath.Dir(path), 0o755)
+		_ = os.WriteFile(path, []byte(val), 0o600)
+		*cleanup = append(*cleanup, func() { _ = os.Remove(path) })
+		return "file:" + path
+	}
+	return "raw:" + tok
+}
+
+func (c C11Case) blankScope(scope string) bool { return c.Blank == scope || c.Blank == "all" }
+
 func c11Text(c C11Case) string {
+	var drop []func()
+	return c11TextRefs(c, &drop)
+}
+
+func c11TextRefs(c C11Case, cleanup *[]func()) string {
 	var b strings.Builder
 	b.WriteString("ingress { listen 127.0.0.1:0 }\n")
 	b.WriteString("pull_api {\n  listen localhost:0\n")
@@ -65,7 +109,7 @@ func c11Text(c C11Case) string {
 		b.WriteString("  prefix /p\n")
 	}
 	for _, t := range c.Global {
-		fmt.Fprintf(&b, "  auth token %s\n", q("raw:"+t))
+		fmt.Fprintf(&b, "  auth token %s\n", q(c.c11Ref("global", t, cleanup)))
 	}
 	b.WriteString("}\nadmin_api {\n")
 	if c.Shared {
@@ -77,13 +121,13 @@ func c11Text(c C11Case) string {
 		}
 	}
 	for _, t := range c.Admin {
-		fmt.Fprintf(&b, "  auth token %s\n", q("raw:"+t))
+		fmt.Fprintf(&b, "  auth token %s\n", q(c.c11Ref("admin", t, cleanup)))
 	}
 	b.WriteString("}\n")
 	for i, r := range c.Routes {
 		fmt.Fprintf(&b, "/r%d {\n  pull {\n    path /pull/r%d\n", i, i)
 		for _, t := range r.Tokens {
-			fmt.Fprintf(&b, "    auth token %s\n", q("raw:"+t))
+			fmt.Fprintf(&b, "    auth token %s\n", q(c.c11Ref("routes", t, cleanup)))
 		}
 		b.WriteString("  }\n}\n")
 	}
@@ -101,9 +145,22 @@ var c11AdminEndpoints = [][2]string{
 
 func (c C11Case) effective(route int) []string {
 	if route >= 0 && route < len(c.Routes) && len(c.Routes[route].Tokens) > 0 {
+		if c.blankScope("routes") {
+			return []string{c.BlankVal}
+		}
 		return c.Routes[route].Tokens
 	}
+	if c.blankScope("global") && len(c.Global) > 0 {
+		return []string{c.BlankVal}
+	}
 	return c.Global
+}
+
+func (c C11Case) adminAllowed() []string {
+	if c.blankScope("admin") && len(c.Admin) > 0 {
+		return []string{c.BlankVal}
+	}
+	return c.Admin
 }
 
 func (c C11Case) tokenFor(r C11Req) (string, bool) {
@@ -256,6 +313,11 @@ func genC11Case() *rapid.Generator[C11Case] {
 		case 1:
 			c.Shared = true
 		}
+		c.Via = rapid.SampledFrom([]string{"", "", "env", "file"}).Draw(t, "via")
+		if rapid.IntRange(0, 5).Draw(t, "blank") == 0 {
+			c.Blank = rapid.SampledFrom([]string{"global", "routes", "admin", "all"}).Draw(t, "blank_scope")
+			c.BlankVal = rapid.SampledFrom([]string{"\n", "  ", "\t", " \r\n"}).Draw(t, "blank_val")
+		}
 		nroutes := len(c.Routes)
 		g := rapid.Custom(func(t *rapid.T) C11Req {
 			r := C11Req{API: rapid.SampledFrom([]string{"pull", "pull", "worker", "admin"}).Draw(t, "api")}
@@ -287,7 +349,16 @@ func genC11Case() *rapid.Generator[C11Case] {
 
 func runC11(c C11Case, _ bool) *fOutcome {
 	out := newFOutcome()
-	src := c11Text(c)
+	var cleanup []func()
+	defer func() {
+		for _, f := range cleanup {
+			f()
+		}
+	}()
+	src := c11TextRefs(c, &cleanup)
+	if c.Via != "" {
+		out.Labels["tokens-via-"+c.Via] = true
+	}
 	// compile clause: a compiled configuration leaves every pull route with a non-empty allowlist
 	emptyAllow := false
 	for i := range c.Routes {
@@ -309,11 +380,20 @@ func runC11(c C11Case, _ bool) *fOutcome {
 		return out
 	}
 	w, err := newFrontWorld(src, worldOpts{})
+	if err != nil && c.Blank != "" {
+		// refusing to start on a whitespace-only token is a sound answer
+		out.Labels["blank-token-refused-at-load"] = true
+		return out
+	}
 	if err != nil {
 		out.Failure = ffail("HARNESS", "world", 0, "valid config rejected: %v\n%s", err, src)
 		return out
 	}
 	defer w.close()
+	if c.Blank != "" {
+		out.Labels["blank-token-loaded"] = true
+		out.NonTriv = true
+	}
 	// loaded authorizers are non-nil for each endpoint
 	w.state.mu.RLock()
 	for i, r := range c.Routes {
@@ -519,7 +599,7 @@ func runC11(c C11Case, _ bool) *fOutcome {
 		judged := true
 		switch r.API {
 		case "admin":
-			allowed = c.Admin
+			allowed = c.adminAllowed()
 			if len(c.Admin) == 0 {
 				judged = false // no admin tokens configured: the statement does not apply
 			}
